@@ -681,6 +681,86 @@ func main() {
 		emitStrList("listingMetadataStmts", lst, len(lst) > 0)
 	}
 
+	// --- the glue between Search and the document store (C03/C16 collection-level theorems):
+	// what `consider` reads, what the exact scan and the listing make of an index entry
+	{
+		norm := func(n ast.Node) string { return strings.Join(strings.Fields(src(n)), " ") }
+		var glue, scan, lid, iter []string
+		if fs := method("collection.go", "Collection", "Search"); fs != nil {
+			ast.Inspect(fs.Body, func(x ast.Node) bool {
+				if as, ok := x.(*ast.AssignStmt); ok && len(as.Lhs) == 1 {
+					if id, ok := as.Lhs[0].(*ast.Ident); ok && id.Name == "consider" {
+						if fl, ok := as.Rhs[0].(*ast.FuncLit); ok {
+							for _, st := range fl.Body.List {
+								switch st.(type) {
+								case *ast.AssignStmt, *ast.IncDecStmt:
+									glue = append(glue, norm(st))
+								}
+							}
+							seen := map[string]bool{}
+							ast.Inspect(fl.Body, func(y ast.Node) bool {
+								if cl, ok := y.(*ast.CompositeLit); ok {
+									if t, ok := cl.Type.(*ast.Ident); ok && t.Name == "SearchResult" {
+										if t := norm(cl); !seen[t] {
+											seen[t] = true
+											glue = append(glue, t)
+										}
+									}
+								}
+								return true
+							})
+						}
+						return false
+					}
+				}
+				return true
+			})
+			for _, call := range findCalls(fs.Body, "IterateRecords") {
+				if len(call.Args) == 1 {
+					if fl, ok := call.Args[0].(*ast.FuncLit); ok {
+						for _, st := range fl.Body.List {
+							scan = append(scan, norm(st))
+						}
+					}
+				}
+			}
+			for _, call := range findCalls(fs.Body, "IterateSortedRecords") {
+				if len(call.Args) == 1 {
+					if fl, ok := call.Args[0].(*ast.FuncLit); ok {
+						for _, st := range fl.Body.List {
+							if t := norm(st); strings.Contains(t, "ParseUint") {
+								lid = append(lid, t)
+							}
+						}
+					}
+				}
+			}
+		}
+		for _, name := range []string{"IterateRecords", "IterateSortedRecords"} {
+			if fd := method("spanfile.go", "SpanFile", name); fd != nil {
+				ast.Inspect(fd.Body, func(x ast.Node) bool {
+					switch st := x.(type) {
+					case *ast.IfStmt:
+						if c := norm(st.Cond); strings.Contains(c, "recordID") {
+							iter = append(iter, name+": if "+c)
+						}
+					case *ast.RangeStmt:
+						iter = append(iter, name+": range "+norm(st.X))
+					case *ast.ExprStmt:
+						if c := norm(st); strings.HasPrefix(c, "sort.") {
+							iter = append(iter, name+": "+c)
+						}
+					}
+					return true
+				})
+			}
+		}
+		emitStrList("considerGlue", glue, len(glue) > 0)
+		emitStrList("exactScanBody", scan, len(scan) > 0)
+		emitStrList("listingIdStmt", lid, len(lid) > 0)
+		emitStrList("iterateShape", iter, len(iter) > 0)
+	}
+
 	// --- distance functions: statement shapes
 	for _, name := range []string{"euclideanDistance", "angularDistance"} {
 		fd := funcDecl("collection.go", name)
